@@ -46,7 +46,7 @@ def project(pickles, clause):
                         "tags": [t["astNodeId"] for t in p["tags"]]})
     return out
 
-NSLOT = 6
+NSLOT = 7
 FTAGS = ["@f", "@d"]
 RTAGS = ["@r", "@d"]
 
@@ -54,7 +54,7 @@ RTAGS = ["@r", "@d"]
 def slot(g, t, line, v, nm):
     """scenario slot types: 0 absent, 1 plain without steps, 2 plain with two steps (doc string argument),
     3 outline: one step, one examples block with one row, 4 outline: two steps with arguments; examples blocks
-    [no table], [header only], [two rows] ; 5 outline without steps, one row"""
+    [no table], [header only], [two rows] ; 5 outline without steps, one row; 6 outline whose examples rows have no cells"""
     sfx = "'" if v else ""
     if t == 0:
         return []
@@ -67,14 +67,21 @@ def slot(g, t, line, v, nm):
     if t == 3:
         steps = [astgen.mk_step(g, "Action", "when <a> <b> <c>" + sfx, line + 1, 0)]
         ex = [astgen.mk_examples(g, 3, ["@e"], ["a", "b"], [["1" + sfx, "<a>"]], line + 3)]
-        return [astgen.mk_scenario(g, nm + " <a>|<b>" + sfx, [], steps, ex, line, "Scenario Outline")]
+        return [astgen.mk_scenario(g, nm + " < <a>|<b> >" + sfx, [], steps, ex, line, "Scenario Outline")]
     if t == 4:
         steps = [astgen.mk_step(g, "Conjunction", "and <a>" + sfx, line + 1, 1 if not v else 3, ("<a>", "x<b>y", "doc <b>" + sfx, "m<a>")),
                  astgen.mk_step(g, "Outcome", "then <b>" + sfx, line + 4, 2 if not v else 0, ("<a>", "<b>", "doc <a><b>", "<b>"))]
         ex = [astgen.mk_examples(g, 1, ["@n"], [], [], line + 7),
               astgen.mk_examples(g, 2, ["@h"], ["a", "b"], [], line + 9),
-              astgen.mk_examples(g, 4, ["@e", "@s"], ["b", "a"], [["B1", "A1" + sfx], ["<a>", "A2"]], line + 12, "ex")]
+              astgen.mk_examples(g, 4, ["@e", "@s"], ["b", "a"], [["B1", "A1" + sfx], ["<a>", "A2"]], line + 12, "ex"),
+              # an UNTAGGED block after tagged ones: its rows carry no examples tags
+              astgen.mk_examples(g, 3, [], ["a", "b"], [["Q" + sfx, "R"]], line + 16)]
         return [astgen.mk_scenario(g, nm + " <b><a>" + sfx, ["@s"], steps, ex, line, "Scenario Outline")]
+    if t == 6:
+        # an examples table whose rows have no cells at all (a bare '|' per row): header present, two body rows
+        steps = [astgen.mk_step(g, "Context", "given" + sfx, line + 1, 0)]
+        ex = [astgen.mk_examples(g, 4, ["@z"], [], [[], []], line + 3)]
+        return [astgen.mk_scenario(g, nm + sfx, [], steps, ex, line, "Scenario Outline")]
     steps = []
     ex = [astgen.mk_examples(g, 3, [], ["a"], [["only" + sfx]], line + 2)]
     return [astgen.mk_scenario(g, nm + " <a>" + sfx, ["@s"], steps, ex, line, "Scenario Outline")]
